@@ -199,6 +199,20 @@ func runOpWorld(rc *corepkg, prop string) {
 				if !removedByAdmin {
 					if r := ow.M.Regions[t.region]; r != nil && !r.Merged && ow.leaderStoreUp(r) {
 						pr := ow.pdRegion(t.region)
+						// C09 allows a cancellation when the current step's own precondition does not hold (whether a step may
+						// find its precondition broken without foreign interference is C08's question, not this one's)
+						if pr != nil {
+							for i := 0; i < t.op.Len(); i++ {
+								if t.op.Step(i).IsFinish(pr) {
+									continue
+								}
+								if t.op.Step(i).CheckSafety(pr) != nil {
+									rc.Extra["cancelled_by_own_step_precondition"]++
+									return
+								}
+								break
+							}
+						}
 						diag := ""
 						if pr != nil {
 							diag = fmt.Sprintf("PD serves epoch %v leader store %d; recorded epoch %v; conf_ver diff %d vs accounted %d; steps %d", pr.GetRegionEpoch(), pr.GetLeader().GetStoreId(), t.op.RegionEpoch(),
